@@ -22,7 +22,7 @@ func init() {
 			"R17.1 key sets of the OS/arch tables used by the file-name rule equal go/build's knownOS/knownArch; " +
 			"R17.2 every special tag condition of go/build.(*Context).matchTag that the statement names (GOOS, GOARCH, build tags, release tags, unix, implied OS tags) has a counterpart reachable from the constraint evaluator; " +
 			"R17.3 //go:build lines are consulted; R17.4 the selection verdicts gate the read/parse of a file on every path (go/cfg); " +
-			"R17.5 the release-tag comparison is oriented as membership in ReleaseTags. " +
+			"R17.5 the release-tag comparison is oriented as membership in ReleaseTags; R17.6 the loops over tags, comment groups and the three separator levels of a constraint are complete; R17.7 every verdict of the file-name rule that can keep a file has decided the last name element against both tables, with the _test suffix removed first. " +
 			"Decides the structure of the selection code, not the boolean evaluation of arbitrary constraint lines.",
 		Assumptions: []string{
 			"go/build of the installed toolchain (GOROOT/src/go/build) is the reference the property names",
